@@ -1,0 +1,18 @@
+//go:build verif
+
+// Verification hooks (build tag "verif" only; never compiled into normal builds).
+
+package x509
+
+import "reflect"
+
+// VerifTypes returns the reflect.Types of the unexported ASN.1 structures that
+// define the certificate wire layout, for the verification translators.
+func VerifTypes() map[string]reflect.Type {
+	return map[string]reflect.Type{
+		"certificate":    reflect.TypeOf(certificate{}),
+		"tbsCertificate": reflect.TypeOf(tbsCertificate{}),
+		"validity":       reflect.TypeOf(validity{}),
+		"publicKeyInfo":  reflect.TypeOf(publicKeyInfo{}),
+	}
+}
